@@ -263,6 +263,19 @@ func Run(args []string) *rep.Report {
 			if !eqStr(got, wc) {
 				bad("clean-peer-addr-info", tc, fmt.Sprintf("%v -> %v, model (as a multiset) %v", strs(l), got, wc))
 			}
+			// FilterPublic and FindHTTPAddrs return new lists: the caller's list is what it was (same entries at the same places)
+			for name, f := range map[string]func([]multiaddr.Multiaddr) []multiaddr.Multiaddr{"FilterPublic": mautil.FilterPublic, "FindHTTPAddrs": mautil.FindHTTPAddrs} {
+				arg := cp()
+				out := f(arg)
+				for i := range out {
+					if out[i] != nil {
+						out[i] = multiaddr.StringCast("/ip4/203.0.113.9/tcp/1") // the result is the caller's too
+					}
+				}
+				if !eqStr(strs(arg), strs(l)) {
+					bad("argument-modified", tc, fmt.Sprintf("%s changed its argument %v to %v", name, strs(l), strs(arg)))
+				}
+			}
 			// equality ignores order: every permutation is equal; a list with one address replaced is not
 			hasNil := false
 			for _, a := range tc.L {
